@@ -23,7 +23,7 @@ impl Check for C29 {
         "case = a seeded multi-replica history; on one replica a head set H from its own history (strictly historical in most cases, incl. heads of concurrent branches) is chosen and either AutoCommit::isolate(H) or Automerge::transaction_at(H) is entered. Checked: (1) the reads under isolation equal fork_at(H) and REF(ancestors(H)); (2) 4–15 model-checked calls (SEQ seeded from the isolated view) have their documented effect on that view; (3) the committed changes depend only on H and the isolated chain, and leave the non-isolated changes untouched; (4) after integrate() the document equals the independent interpretation of all its changes and equals a clone taken before isolation to which the isolated changes were applied. Non-trivial = H strictly historical and later changes touch the same objects; distinct by (history, H, edits).".into()
     }
     fn required_counters(&self) -> Vec<&'static str> {
-        vec!["isolations", "strictly_historical", "variant_autocommit_isolate", "variant_transaction_at", "effects_compared", "isolated_changes_checked", "integrations_compared"]
+        vec!["isolations", "strictly_historical", "variant_autocommit_isolate", "variant_transaction_at", "effects_compared", "isolated_changes_checked", "integrations_compared", "planted_conflicted_counter_scenarios"]
     }
     fn run_case(&self, cx: &mut Ctx, case: u64, rng: &mut Rng) {
         let enc = enc_for(rng);
@@ -32,6 +32,29 @@ impl Check for C29 {
         w.verbose = cx.verbose;
         w.run(rng, rng.clone().range(8, cx.tier.pick(50, 140)));
         w.merge(0, 1);
+        // planted scenario (a third of the cases): a register that, at the heads H* to isolate at, is a
+        // conflict of a counter and a non-counter, while the current document also holds a later,
+        // concurrent value for it from outside H*; the isolated transaction starts by incrementing it
+        let mut planted: Option<(Vec<ChangeHash>, String)> = None;
+        if rng.chance(33) {
+            use automerge::transaction::Transactable;
+            let key = format!("p{}", rng.below(2));
+            w.merge(1, 0);
+            let _ = w.docs[0].put(automerge::ROOT, key.as_str(), automerge::ScalarValue::counter(10));
+            let _ = w.docs[1].put(automerge::ROOT, key.as_str(), "plain");
+            w.merge(0, 1);
+            w.merge(1, 0);
+            let hstar = w.docs[0].get_heads();
+            if !w.head_sets.contains(&hstar) {
+                w.head_sets.push(hstar.clone());
+            }
+            let _ = w.docs[1].put(automerge::ROOT, key.as_str(), 777);
+            w.commit(1);
+            w.merge(0, 1);
+            w.collect();
+            planted = Some((hstar, key));
+            cx.count("planted_conflicted_counter_scenarios");
+        }
         let log = w.log.clone();
         let all = w.ledger.clone();
         let mut doc = w.docs[0].clone();
@@ -42,7 +65,10 @@ impl Check for C29 {
             return;
         }
         rng.shuffle(&mut cands);
-        let h = cands[0].clone();
+        let h = match &planted {
+            Some((hs, _)) if hs.iter().all(|x| known.contains(x)) => hs.clone(),
+            _ => cands[0].clone(),
+        };
         let anc = ancestors(&all, &h);
         let strictly = anc.len() < known.len();
         cx.count("isolations");
@@ -83,6 +109,10 @@ impl Check for C29 {
                     cx.violation("fork-at-failed", format!("fork_at(H) failed: {e}"), detail(String::new()));
                     return;
                 }
+            }
+            if let Some((_, key)) = &planted {
+                use automerge::transaction::Transactable;
+                let _ = doc.increment(automerge::ROOT, key.as_str(), 2);
             }
             if !drive(cx, &mut doc, rng, enc, k, &mut counter, "isolated-autocommit", &log, 0) {
                 return;
@@ -133,6 +163,10 @@ impl Check for C29 {
                         cx.violation("isolated-view-not-state-at-heads|transaction_at", format!("reads inside transaction_at(H) (left) vs interpretation of ancestors(H) (right) {d}"), detail(String::new()));
                         return;
                     }
+                }
+                if let Some((_, key)) = &planted {
+                    use automerge::transaction::Transactable;
+                    let _ = tx.increment(automerge::ROOT, key.as_str(), 2);
                 }
                 if !drive(cx, &mut tx, rng, enc, k, &mut counter, "transaction_at", &log, 0) {
                     return;
